@@ -91,7 +91,7 @@ func c04Forms(v *big.Int) []string {
 func c04Run(t *testing.T, sub, keyName string, maxK int, nonrev bool, qb, tb time.Duration) {
 	r := vkit.Start(t, "C04", sub, qb, tb)
 	defer r.Finish()
-	r.Rule = "k=1..K attributes and k = every base of the key used, values = rotation of {tag,0,1,2^Lm-1,2^Lm,2^(Lm+200)+c} over positions, every subset of {1..k} disclosed (index list ascending, descending or rotated by one, by rotation number), both session kinds, via CreateDisclosureProof and via builder+BuildProofList; non-trivial = distinct (k,rotation,subset,session,path); oracle: verifies; key sets exact and values true; timestamp contribution exact; no hidden value (>=64 bits) nor its SHA-256 exponent appears as a JSON leaf or substring"
+	r.Rule = "k=1..K attributes and k = every base of the key used, values = rotation of {tag,0,1,2^Lm-1,2^Lm,2^(Lm+200)+c} over positions, every subset of {1..k} disclosed (index list ascending, descending or rotated by one, by rotation number), both session kinds, via CreateDisclosureProof and via builder+BuildProofList (every third builder after an abandoned first attempt with other randomisers); non-trivial = distinct (k,rotation,subset,session,path); oracle: verifies; key sets exact and values true; timestamp contribution exact; no hidden value (>=64 bits) nor its SHA-256 exponent appears as a JSON leaf or substring"
 	k := vfK(keyName)
 	pk := k.Pk
 	vfInstallEnv(t, "C04/"+sub, r.Seed)
@@ -283,6 +283,14 @@ func c04Run(t *testing.T, sub, keyName string, maxK int, nonrev bool, qb, tb tim
 					if pan, msg := vkit.Guard(func() { b, err = cred.CreateDisclosureProofBuilder(D, nil, nonrev) }); pan || err != nil {
 						r.Violate("C04|proof-not-created|builder", fmt.Sprintf("%v %s %v", caseID, msg, err), caseID)
 						continue
+					}
+					// every third case: the builder went through an abandoned first attempt (commitments made with other
+					// randomisers, for another nonce) before the session that counts
+					if r.Evaluations%3 == 0 {
+						if _, err := (ProofBuilderList{b}).Challenge(vfContext, new(big.Int).Add(vfNonce, vfInt(99)), issig); err != nil {
+							r.Violate("C04|proof-not-created|Challenge", fmt.Sprint(err), caseID)
+							continue
+						}
 					}
 					// the order a signature session uses: commit + challenge, timestamp contributions, then the proof
 					chal, err := ProofBuilderList{b}.Challenge(vfContext, vfNonce, issig)
